@@ -442,3 +442,32 @@ sl_harness! { #[kani::unwind(6)] fn c03_lemma_concrete_histories() {
     lemma_concrete(4, 3, 6, 5, 3, 5);
     lemma_concrete(4, 3, 6, 5, 6, 2);
 } }
+
+// W7 (C15): ANOTHER affiliate bought and then had its shares split inside the
+// window before the default affiliate's loss sale: its acquisition counts in
+// the sale's split period (x * m), keyed by the split row's own affiliate.
+sl_harness! {
+    #[kani::unwind(6)]
+    fn c15_w_otherbuy_othersplit_sale() {
+        let x = any_in(1, SH_MAX); let bb0 = any_in(0, SH_MAX);
+        let two = ks::any_bool();
+        let m = if two { 2 } else { 3 };
+        let bd = any_in(1, SH_MAX);
+        let n = any_in(1, SH_MAX);
+        ks::assume(n <= bd);
+        let o1 = any_in(0, OFF_MAX); let g = any_in(0, 10);
+        let o0 = o1 + g; // the buy is at or before the split
+        let bb = (bb0 + x) * m; // b's holdings at the sale, post-split
+        let st = state_before_sale(bd, Some(bb), None);
+        let txs = vec![a_buy(1, x, SALE_DAY - o0, 0), a_split(1, m, 1, SALE_DAY - o1, 1), a_sale(0, n, 2)];
+        let r = get_superficial_loss_ratio(2, &txs, &st);
+        let in0 = o0 <= 30;
+        let acquired = if in0 { x * m } else { 0 };
+        let held = bd - n + bb;
+        match r {
+            Ok(res) => { check_result(&res, n, acquired, held); core::mem::forget(res); }
+            Err(_) => assert!(false, "no later sale: the scan must not reject"),
+        }
+        core::mem::forget(txs); core::mem::forget(st);
+    }
+}
